@@ -14,12 +14,24 @@ CHECKS = {
  "C03": ("exploration", "invariant at a hook (reference counters == referrers recounted from contents) after every operation, plus model-judged DELETE sweep over every group/next-hop",
          "Histories biased to retargeting references (implicit/explicit replace to other groups, NIs, next-hop sets, duplicate indices, flushes) run on the real RIB; the hooked counters are compared with referrers recounted from RIBContents after every operation and a DELETE of every group and next-hop is judged by the model (FAILED iff referenced now), followed by full teardowns.",
          "trusted: model + canonicaliser + VerifRefCounts hook (read-only snapshot)", "4 C03"),
+ "C04": ("exploration", "session/election/RIB reference model run in lock step with the real server over direct streams (and gRPC); full hooked-state comparison (contents, refcounts, held ops, highest id, primary, session table) and bystander-stream silence after every step",
+         "Thousands of seeded interleavings of connect/negotiate, announce, operate and disconnect steps by up to four sessions, with announced ids that are ties and +-1 / opposing-halves neighbours of the maximum and operations stamped with the session's last id, the server maximum, a stale, a future, another session's id or none. Every operation's verdict is judged by the model and the complete server state is compared with the model after every step, so an unauthorised operation that changes anything is seen at once.",
+         "trusted: session model (harness/mon/sessmon.go), RIB model, hooks VerifElection/VerifSessions; sequential interleavings decide (the concurrent side is C11)", "4 C04"),
+ "C05": ("exploration", "bounded-exhaustive 128-bit id lattice + boundary-structured random announcement sequences against a running-maximum model; concurrent announcements under the race detector checked with porcupine (max-register) and a quiescent primary probe; yield-point injection",
+         "All ordered pairs/triples of the 16 ids with halves in {0,1,2,2^64-1}, thousands of random sequences over boundary neighbours, and concurrent announcement histories by 4-8 sessions (own direct stream each, scheduling perturbed at the election yield points) are executed; every reply must be the running 128-bit maximum, the history must linearise as a max-register, and afterwards exactly the session entitled to it can program an operation.",
+         "trusted: porcupine v1.3.0, the max-register model; built with -race (reports in repo frames are violations)", "4 C05"),
+ "C06": ("exploration", "result-stream accountant + RIB reference model: every ModifyResponse attributed to its operation (barrier-delimited), per-stream multiset accounting over whole histories, hand-over scripts with colliding operation ids",
+         "Single-session histories (RIB/FIB acknowledgement, batches up to 200, empty/unknown network instances, held operations that resolve or fail) and primary hand-over scripts (old primary connected / gone / re-announcing; equal or higher id; colliding operation ids) are run through the real server; each result is attributed and judged by the model, no stream may carry a result for an id it did not send, and the multiset of results per (stream, id) is accounted at the end.",
+         "trusted: session + RIB models; 'answered by the time the barrier is answered' relies on one goroutine serving a Modify stream in order", "4 C06"),
  "C07": ("exploration", "round-trip/differential oracle: Get responses (direct stream and real gRPC) vs reference-model contents with an independent field-by-field canonicaliser; FromGetResponses rebuild",
          "RIBs built from generated histories with every payload field independently present are read back with every (network-instance selection x table) Get combination; the streamed entries are compared with the model as keyed multisets with field-level payload equality, Get(ALL) with the union of per-table Gets, and a RIB rebuilt with rib.FromGetResponses with the source. Evidence lists the fields whose round trip was actually exercised.",
          "trusted: model + canonicaliser (does not use the repository's protomap-based conversion); status codes of malformed Gets are not asserted (property silent)", "4 C07"),
  "C08": ("exploration", "complete election/NI decision table of Flush executed on generated RIBs + contents workload; reference model, hooked refcount invariant and model-judged aftermath (ops + delete sweep)",
          "All 300 cells of {learnt id} x {election field incl. 128-bit neighbours} x {network-instance field} are executed against servers with generated contents: status code, exact emptying / no change, election state untouched, consistent aftermath. Authorised flushes of every target selection run over generated RIBs with shared, missing and cyclic backup groups and cross-NI references.",
          "trusted: model; expected status codes taken from gRIBI spec 4.3 (detail reasons not asserted)", "4 C08"),
+ "C09": ("exploration", "bounded-exhaustive message sequences (length <= 3 over an 18-symbol alphabet, 4 start states, 6 bystander configurations) plus random longer ones against the session model: termination status (code + reason), full hooked-state comparison, bystander silence, footprint probe",
+         "Every sequence of up to three messages from {8 parameter combinations, election zero/low/equal/high, operation with/without id, 4 multi-field messages} is sent on a session started fresh / negotiated / primary / superseded, with other sessions present in six configurations; the status the RPC ends with must be in the set the gRIBI specification allows, the complete server state must equal the model after every message, other streams must stay silent, and afterwards a fresh session must be able to negotiate.",
+         "trusted: session model; acceptance sets where the specification leaves room are listed in the evidence assumptions", "4 C09"),
  "C12": ("exploration", "hostile-input workload (structured protobuf mutation + named invalid classes) in sacrificial child processes with a state-unchanged oracle (contents, hooked pending set and refcounts), crash detection by process exit and hang detection by watchdog + quiescent goroutine-dump classifier",
          "Child processes each send hundreds of mutated or deliberately invalid AFT operations (through the RIB API and through a Modify stream) and Get/Flush request variants to a populated server that also carries a bystander session; each input is logged before it is sent so that a crash names its input. Invalid classes must be FAILED (or a clean RPC error) with contents, held operations and reference counters unchanged; inputs of unknown validity must not crash or hang and must leave state unchanged when rejected.",
          "trusted: the class tags of the generator; only wire-representable inputs are sent; the process boundary is the crash detector", "4 C12"),
